@@ -353,7 +353,48 @@ namespace vh
                     auto m = grid_array<G, bool>(*grid, false);
                     for (size_t i = 0; i < n; ++i)
                         m.flat(i) = mv[i] != 0;
-                    h.fg->set_mask(m);
+                    // the same mask VALUE handed over in another form (set_mask accepts any xtensor
+                    // expression): column-major container, fixed-rank tensor, lazy expression, or a lazy
+                    // non-element-wise view of the graph's own current mask
+                    const std::string form = s.get_str("form", "");
+                    const auto gshape = grid->shape();
+                    if (form == "col")
+                    {
+                        std::vector<size_t> shp(gshape.begin(), gshape.end());
+                        xt::xarray<bool, xt::layout_type::column_major> mc
+                            = xt::xarray<bool, xt::layout_type::column_major>::from_shape(shp);
+                        if (shp.size() == 2)
+                        {
+                            for (size_t r = 0; r < shp[0]; ++r)
+                                for (size_t c = 0; c < shp[1]; ++c)
+                                    mc(r, c) = m(r, c);
+                        }
+                        else
+                            for (size_t i = 0; i < n; ++i)
+                                mc(i) = m(i);
+                        h.fg->set_mask(mc);
+                    }
+                    else if (form == "xtensor")
+                    {
+                        constexpr size_t rank = std::tuple_size<std::decay_t<decltype(gshape)>>::value;
+                        xt::xtensor<bool, rank> mt = m;
+                        h.fg->set_mask(mt);
+                    }
+                    else if (form == "expr")
+                    {
+                        auto ints = grid_array<G, int>(*grid, 0);
+                        for (size_t i = 0; i < n; ++i)
+                            ints.flat(i) = mv[i] != 0 ? 3 : 0;
+                        h.fg->set_mask(xt::not_equal(ints, 0));
+                    }
+                    else if (form == "flip_own")
+                    {
+                        xt::xarray<bool> rev = xt::flip(m, 0);
+                        h.fg->set_mask(rev);  // (not observed: no update in between)
+                        h.fg->set_mask(xt::flip(h.fg->impl().mask(), 0));
+                    }
+                    else
+                        h.fg->set_mask(m);
                     std::vector<long long> back(n);
                     auto mk = h.fg->mask();
                     for (size_t i = 0; i < n; ++i)
